@@ -4,6 +4,8 @@
 (*   Part "grp" : the Cayley graph of the symmetry group (state = element + accumulated output               *)
 (*                representation), every element applied to base inputs ("sym" vectors)                       *)
 (*   Part "anc" : sphere anchors and constructor-equivalence pairs, root -> chunk -> vectors                  *)
+(*   Part "seq" : the object as a state machine under SetScale: every path of calls (admissible, throwing,    *)
+(*                default argument) from every kind of object; state = path + the scale in force after each call *)
 (* Model invariants are checked on every state; Emit prints the vectors that the driver replays.              *)
 EXTENDS ConicSym, TLC, Json
 
@@ -15,22 +17,45 @@ InChunk(S, C) == {x \in S : x % NChunks = C}
 NegE(P) == <<-P[1], -P[2]>>
 
 (* ------------------------------ Part "ctor" ------------------------------ *)
+\* Every constructor form (ct = 1 one parallel, 2 two parallels, 3 sines / cosines, 4 the same un-normalised; PS) is combined
+\* with every invalid argument class in every argument position (a, f, k, first parallel, second parallel):
+\*   "lat"  : the full Eps lattice of parallels (both positions) incl. NaN and +-inf, with a good and two single-bad scalar triples;
+\*   "sc"   : every scalar triple of Scalars (each bad class of k, of f, of a alone, and two mixed ones) with good, polar, out-of-range
+\*            and NaN parallels in both positions;
+\*   Dense  : the full product KCodes x FCodes x ACodes with every form, and Scalars on the full lattices.
 LatP == {-91, -90, -89, -45, 0, 30, 89, 90, 91}
-EpsLat == {<<p, d>> : p \in LatP, d \in D3}
-SCCodes == {-90, -60, 0, 45, 90, 100, 101, 102, 103, 104, 105}
+LatX == {-LatInf, LatInf, LatNaN}                      \* -inf, +inf, NaN as a latitude in degrees
+EpsLat == {<<p, d>> : p \in LatP, d \in D3} \cup {<<p, 0>> : p \in LatX}
+LatAll == LatP \cup LatX
+DOf(p) == IF p \in LatX THEN {0} ELSE D3
+SCCodes == {-90, -60, 0, 45, 90, 100, 101, 102, 103, 104, 105, 106, 107, 108, 109, 110, 111}
 ConFam == {"lcc", "alb"}
 Scalars == {<<2, 1, 0>>} \cup {<<k, 1, 0>> : k \in KCodes} \cup {<<2, f, 0>> : f \in FCodes} \cup {<<2, 1, a>> : a \in ACodes}
            \cup {<<3, 2, 1>>, <<1, 3, 0>>, <<0, 5, 5>>}
+AllScalars == {<<k, f, a>> : k \in KCodes, f \in FCodes, a \in ACodes}
+Few2 == {<<2, 1, 0>>, <<3, 2, 1>>, <<0, 1, 0>>}
+Few3 == {<<2, 1, 0>>, <<1, 0, 1>>, <<9, 1, 0>>}
+ScPar == {<<30, 0>>, <<90, 0>>, <<-90, 0>>, <<91, 0>>, <<LatNaN, 0>>}     \* parallels combined with every scalar triple (degrees)
+ScSC == {45, 90, -90, 100, 106}                                           \* ... (sine / cosine codes)
+ObjCalls == KCallCodes
 VecCtor(C) ==
-  \/ \E p \in InChunk(LatP, C), d \in D3, fam \in ConFam, sc \in Scalars :
+  \/ \E p \in InChunk(LatAll, C), fam \in ConFam, sc \in Scalars : \E d \in DOf(p) :
         v' = <<"ctor", fam, 1, p, d, p, d, sc[1], sc[2], sc[3]>>
-  \/ \E p \in InChunk(LatP, C), d \in D3, Q \in EpsLat, fam \in ConFam, sc \in {<<2, 1, 0>>, <<3, 2, 1>>, <<0, 1, 0>>} :
+  \/ \E p \in InChunk(LatAll, C), Q \in EpsLat, fam \in ConFam, sc \in (IF Dense THEN Scalars ELSE Few2) : \E d \in DOf(p) :
         v' = <<"ctor", fam, 2, p, d, Q[1], Q[2], sc[1], sc[2], sc[3]>>
-  \/ \E c1 \in InChunk(SCCodes, C), c2 \in SCCodes, fam \in ConFam, ct \in {3, 4}, sc \in {<<2, 1, 0>>, <<1, 0, 1>>, <<9, 1, 0>>} :
+  \/ \E P \in ScPar, Q \in ScPar, fam \in ConFam, sc \in Scalars :
+        (P[1] + Q[1]) % NChunks = C /\ v' = <<"ctor", fam, 2, P[1], P[2], Q[1], Q[2], sc[1], sc[2], sc[3]>>
+  \/ \E c1 \in InChunk(SCCodes, C), c2 \in SCCodes, fam \in ConFam, ct \in {3, 4}, sc \in (IF Dense THEN Scalars ELSE Few3) :
         v' = <<"ctor", fam, ct, c1, 0, c2, 0, sc[1], sc[2], sc[3]>>
+  \/ \E c1 \in InChunk(ScSC, C), c2 \in ScSC, fam \in ConFam, ct \in {3, 4}, sc \in Scalars :
+        v' = <<"ctor", fam, ct, c1, 0, c2, 0, sc[1], sc[2], sc[3]>>
+  \/ Dense /\ \E sc \in AllScalars, fam \in ConFam, ct \in 1..4 :
+        (sc[1] + sc[2] + sc[3]) % NChunks = C /\
+        v' = <<"ctor", fam, ct, IF ct <= 2 THEN 30 ELSE 0, 0, IF ct = 1 THEN 30 ELSE 45, 0, sc[1], sc[2], sc[3]>>
   \/ \E k \in InChunk(KCodes, C), f \in FCodes, a \in ACodes : v' = <<"ctor", "ps", 0, 90, 0, 90, 0, k, f, a>>
-  \/ \E p \in InChunk(LatP, C), d \in D3, k \in KCodes, fam \in Fams, pol \in {"np", "sp", "no"} :
-        (fam = "ps" => pol = "np") /\ v' = <<"sets", fam, pol, p, d, k>>
+  \* SetScale(lat, k) - or SetScale(lat), k = 7 - on an object built with the scale k0c
+  \/ \E p \in InChunk(LatAll, C), k \in KCallCodes, fam \in Fams, pol \in {"np", "sp", "no"}, k0c \in KObjCodes : \E d \in DOf(p) :
+        (fam = "ps" => pol = "np") /\ v' = <<"sets", fam, pol, p, d, k, k0c>>
 
 CtorOf(w) == [fam |-> w[2], ct |-> w[3], P1 |-> <<w[4], w[5]>>, P2 |-> <<w[6], w[7]>>, kc |-> w[8], fc |-> w[9], ac |-> w[10]]
 Plain(c) == c.ct \in {1, 2} \/ (c.P1[1] \in -90..90 /\ c.P2[1] \in -90..90)
@@ -49,15 +74,26 @@ CtorInv ==
           CtorOutcome([c EXCEPT !.ct = 3]) = o /\ CtorOutcome([c EXCEPT !.ct = 4]) = o)
     \* Albers admits whatever LCC admits
     /\ (c.fam = "lcc" /\ o = "ok" => CtorOutcome([c EXCEPT !.fam = "alb"]) = "ok")
+    \* every argument is validated, in every form: one bad argument (whatever the others are) is enough for a throw
+    /\ (c.fam # "ps" /\ (ParKind(c.ct, c.P1) = "bad" \/ (c.ct # 1 /\ ParKind(c.ct, c.P2) = "bad")) => o = "throw")
+    /\ (\A kc \in KCodes \ {1, 2, 3} : CtorOutcome([c EXCEPT !.kc = kc]) = "throw")
+    /\ (\A fc \in FCodes \ {0, 1, 2, 3} : CtorOutcome([c EXCEPT !.fc = fc]) = "throw")
+    /\ (\A ac \in ACodes \ {0, 1} : CtorOutcome([c EXCEPT !.ac = ac]) = "throw")
+    \* NaN / infinite latitudes are outside [-90, 90]
+    /\ (c.fam # "ps" /\ c.ct \in {1, 2} /\ c.P1[1] \in LatX => o = "throw")
 SetsInv ==
   v[1] = "sets" =>
     LET o == SetScaleOutcome(v[2], v[3], <<v[4], v[5]>>, v[6])
         mp == CASE v[3] = "np" -> "sp" [] v[3] = "sp" -> "np" [] OTHER -> "no" IN
     /\ o \in {"ok", "throw"}
-    /\ (o = "ok" => KGood(v[6]) /\ ~EpsBad(<<v[4], v[5]>>))
+    /\ (o = "ok" => KGoodCall(v[6]) /\ ~EpsBad(<<v[4], v[5]>>))
     /\ (v[2] # "ps" => SetScaleOutcome(v[2], mp, NegE(<<v[4], v[5]>>), v[6]) = o)
     \* strictly inside (-90, 90) every family accepts a good scale
-    /\ (KGood(v[6]) /\ v[4] \in -89..89 => o = "ok")
+    /\ (KGoodCall(v[6]) /\ v[4] \in -89..89 => o = "ok")
+    \* "(default 1)": omitting k is the call with k = 1
+    /\ (v[6] = 7 => o = SetScaleOutcome(v[2], v[3], <<v[4], v[5]>>, 2))
+    \* admissibility does not depend on the scale the object was built with
+    /\ v[7] \in KObjCodes
 
 (* ------------------------------ Part "grp" ------------------------------- *)
 \* state <<"g", cls, s, m, e, u, v, R[1..6]>>: cls "con" / "ps"; s hemisphere of the base call (ps)
@@ -116,6 +152,45 @@ SymInv ==
     /\ (v[2] # "ps" =>
          CtorOutcome([fam |-> v[2], ct |-> 2, P1 |-> <<v[14], 0>>, P2 |-> <<v[15], 0>>, kc |-> v[8], fc |-> 0, ac |-> 0]) =
          CtorOutcome([fam |-> v[2], ct |-> 2, P1 |-> <<v[9], 0>>, P2 |-> <<v[10], 0>>, kc |-> v[8], fc |-> 0, ac |-> 0]))
+
+(* ------------------------------ Part "seq" ------------------------------- *)
+\* state <<"sq", fam, pol, k0c, mode, n, (p, d, kc, ep, ed, ekc) x n>>: the calls made so far and, after each, the scale in
+\* force according to ConicSym (<<0,0,0>>: the constructor's).  Full-length paths are emitted as "seq" vectors.
+\*   mode 0 (quick): 5 latitudes x 5 scale arguments, 2 calls;  Dense adds mode 1: 9 x 8, 2 calls, and mode 2: 4 x 4, 3 calls
+SeqObjs == {<<"ps", "np">>} \cup {<<fam, pol>> : fam \in ConFam, pol \in {"np", "sp", "no"}}
+SeqModes == IF Dense THEN {1, 2} ELSE {0}
+SeqLen(m) == IF m = 2 THEN 3 ELSE 2
+SeqLats(m) == CASE m = 0 -> {<<-90, 0>>, <<-90, 1>>, <<90, 0>>, <<30, 0>>, <<LatNaN, 0>>}
+                [] m = 1 -> {<<-90, 0>>, <<-90, 1>>, <<90, 0>>, <<90, -1>>, <<91, 0>>, <<30, 0>>, <<-45, 0>>, <<LatNaN, 0>>, <<-91, 0>>}
+                [] OTHER -> {<<-90, 0>>, <<90, 0>>, <<30, 0>>, <<-45, 0>>}
+SeqKs(m) == CASE m = 0 -> {1, 3, 7, 0, 9} [] m = 1 -> KCallCodes [] OTHER -> {1, 3, 7, -1}
+SeqInit == {<<"sq", o[1], o[2], k0c, m, 0>> : o \in SeqObjs, k0c \in KObjCodes, m \in SeqModes}
+SeqCall(w, i) == <<w[6 * i + 1], w[6 * i + 2], w[6 * i + 3]>>       \* i-th call, i >= 1
+SeqEff(w, i) == IF i = 0 THEN ScaleCtor ELSE <<w[6 * i + 4], w[6 * i + 5], w[6 * i + 6]>>
+SeqCalls(w) == [i \in 1..w[6] |-> SeqCall(w, i)]
+SeqStep ==
+  /\ v[1] = "sq" /\ v[6] < SeqLen(v[5])
+  /\ \E L \in SeqLats(v[5]), k \in SeqKs(v[5]) :
+       LET call == <<L[1], L[2], k>>  e == SetScaleStep(v[2], v[3], SeqEff(v, v[6]), call)
+       IN v' = [SubSeq(v, 1, 5) \o <<v[6] + 1>> \o SubSeq(v, 7, Len(v)) \o call \o e EXCEPT ![1] = "sq"]
+MirrorPol(pol) == CASE pol = "np" -> "sp" [] pol = "sp" -> "np" [] OTHER -> "no"
+SeqInv ==
+  v[1] = "sq" =>
+    LET n == v[6]  calls == SeqCalls(v) IN
+    /\ Len(v) = 6 + 6 * n
+    \* the state carried along the path is the one the specification computes from the calls
+    /\ \A i \in 0..n : SeqEff(v, i) = ScaleAfter(v[2], v[3], calls, i)
+    /\ \A i \in 1..n :
+         LET c == calls[i]  o == SetScaleOutcome(v[2], v[3], <<c[1], c[2]>>, c[3]) IN
+         \* a call that throws changes nothing; a call that returns overrides whatever was in force (no dependence on the prefix)
+         /\ (o = "throw" => SeqEff(v, i) = SeqEff(v, i - 1))
+         /\ (o = "ok" => SeqEff(v, i) = c /\ KGoodCall(c[3]) /\ ~EpsBad(<<c[1], c[2]>>))
+         \* hemisphere mirror of object and latitude (conics)
+         /\ (v[2] # "ps" => SetScaleOutcome(v[2], MirrorPol(v[3]), NegE(<<c[1], c[2]>>), c[3]) = o)
+         \* omitted k = 1
+         /\ (c[3] = 7 => o = SetScaleOutcome(v[2], v[3], <<c[1], c[2]>>, 2))
+    \* the scale in force is the constructor's iff no call returned
+    /\ (SeqEff(v, n) = ScaleCtor <=> \A i \in 1..n : SetScaleOutcome(v[2], v[3], <<calls[i][1], calls[i][2]>>, calls[i][3]) = "throw")
 
 (* ------------------------------ Part "anc" ------------------------------- *)
 AncLat == {-90, -60, -30, 0, 30, 60, 90}
@@ -178,7 +253,7 @@ EqvInv ==
     \* the same anchors
     /\ \A lat \in {0, 30, 90} : Anchors(Canon(A), lat, 90) = Anchors(Canon(B), lat, 90)
 
-Init == IF Part = "grp" THEN v \in GInit ELSE v = <<"root">>
+Init == IF Part = "grp" THEN v \in GInit ELSE IF Part = "seq" THEN v \in SeqInit ELSE v = <<"root">>
 Next ==
   \/ v = <<"root">> /\ \E c \in 0..(NChunks - 1) : v' = <<"chunk", c>>
   \/ /\ v[1] = "chunk"
@@ -186,6 +261,8 @@ Next ==
           [] Part = "anc" -> VecAnc(v[2])
           [] OTHER -> FALSE
   \/ Part = "grp" /\ GStep
+  \/ Part = "seq" /\ SeqStep
 
-Emit == v[1] \notin {"root", "chunk", "g"} => PrintT(ToJson(v))
+Emit == /\ v[1] \notin {"root", "chunk", "g", "sq"} => PrintT(ToJson(v))
+        /\ (v[1] = "sq" /\ v[6] = SeqLen(v[5])) => PrintT(ToJson(<<"seq">> \o Tail(v)))
 =============================================================================
